@@ -1629,6 +1629,17 @@ func (p *partition) replicationRequestLoop(leader string, epoch uint64, stop <-c
 			continue
 		case <-p.notify:
 			// Leader has signalled more data is available.
+			select {
+			case <-stop:
+				// This loop was stopped in the meantime, e.g. because a new
+				// leader epoch started another loop. The notification is
+				// meant for the loop that replaced this one, so pass it on
+				// instead of swallowing it. Otherwise the new loop could
+				// sleep for the full idle wait with data available.
+				p.Notify()
+				return
+			default:
+			}
 			continue
 		}
 	}
